@@ -88,6 +88,46 @@ DESC = {
     "C19-D": "(round 3) B613 pre-filters raw bytes on 0xE2: bidi marks in Hebrew/Arabic code pages and gb18030 are missed",
     "C20-C": "(round 3) cleanliness checked with `git diff HEAD`: a staged edit whose working copy was reverted is not refused and is lost",
     "C20-D": "(round 3) the tool re-raises SIGTERM/SIGHUP of the bandit subprocess on itself inside the cleanup scope",
+    "C01-E": "(round 4) the tester anchors a finding inside an f-string on the f-string's first line",
+    "C01-F": "(round 4) `B001` expands to the blacklist rules only when it is the sole selected ID (`-t B001,B602` loses them)",
+    "C02-E": "(round 4) `_get_nosecs_from_contexts` merges span comments into the stored comment set of the reported line",
+    "C02-F": "(round 4) `plugins_by_name` keyed by the function name instead of the registered name (B324, B508, B509)",
+    "C03-E": "(round 4) `.bandit` level/confidence clamped to the last RANKING *index*: 4 (HIGH) becomes 3",
+    "C03-F": "(round 4) SARIF keeps one result per (test, file, line)",
+    "C04-E": "(round 4) a check that raises is removed from the shared test list: later files lose it",
+    "C04-F": "(round 4) JSON written with `ensure_ascii=False`: a non-UTF-8 file name kills the report on a strict stdout",
+    "C05-E": "(round 4) B609 appends `subprocess.run` to the shared `shell_injection` config dict of the other checks",
+    "C05-F": "(round 4) excluded IDs subtracted from each nosec set: an emptied set acts as a blanket nosec",
+    "C06-E": "(round 4) `concat_string` joins every Constant's value: an int or bytes operand raises in B608",
+    "C06-F": "(round 4) the built-in check registers for every node type while its table holds only the selected ones (KeyError under `-t B301,B602`)",
+    "C07-E": "(round 4) backslashes in baseline file names rewritten to slashes",
+    "C07-F": "(round 4) JSON candidate lists cached under a key without severity/confidence",
+    "C08-E": "(round 4) cached nosec parsing + in-place set union: comment sets leak between files of one process",
+    "C08-F": "(round 4) files de-duplicated by real path while iterating a set: the surviving spelling follows the hash seed",
+    "C09-E": "(round 4) CSV cells starting with `= + - @` get a leading apostrophe (file names of `-r @vendor`)",
+    "C09-F": "(round 4) the baseline candidate branch of the HTML report loses its escaping",
+    "C10-E": "(round 4) the range of a position-less node taken from its first and last child in field order",
+    "C10-F": "(round 4) txt/screen split excerpts with `splitlines()`",
+    "C11-E": "(round 4) glob patterns without `*`/`?` compared by equality (bracket classes stop matching)",
+    "C11-F": "(round 4) under `-r`, targets lying inside another directory target are dropped (explicit non-.py files are lost)",
+    "C12-E": "(round 4) `get_test_id` lower-cases names: two nosec-by-name comments count as bare",
+    "C12-F": "(round 4) JSON omits the metrics blocks of skipped files while `_totals` still counts their lines",
+    "C13-E": "(round 4) `.bandit` list values split on blanks as well as commas",
+    "C13-F": "(round 4) profile lookup through the dotted `get_option` path (`-p web.include`, profile names with dots)",
+    "C14-E": "(round 4) `_get_literal_value` negates operands of unary minus: `bufsize=-size` raises",
+    "C14-F": "(round 4) `visit_FunctionDef` drops an import alias named like the function",
+    "C15-E": "(round 4) `call_keywords` stops at the first `**mapping`",
+    "C15-F": "(round 4) generated plugin defaults only when the function has no `_config` yet",
+    "C16-E": "(round 4) B103 reads only `mode=` as soon as the call has any keyword",
+    "C16-F": "(round 4) B108 joins the configured directories into one unescaped regular expression",
+    "C17-E": "(round 4) stale `_config` reused by later test sets",
+    "C17-F": "(round 4) B608 pre-filter on whitespace-split tokens misses `(SELECT`",
+    "C18-E": "(round 4) the XML formatter caches documentation links by test *name* (all blacklist findings share one)",
+    "C18-F": "(round 4) words after `nosec` that were not tests are remembered lower-cased and skipped later",
+    "C19-E": "(round 4) `process()` returns early for an empty module body: no file-level checks",
+    "C19-F": "(round 4) relative imports resolved against the package derived from the file path",
+    "C20-E": "(round 4) SIGPIPE reset to its default action in the baseline tool",
+    "C20-F": "(round 4) untracked files listed with `--directory`: a wholly untracked directory hides its files",
 }
 
 
